@@ -911,6 +911,12 @@ class Exec:
             if isinstance(a, (bytes, bytearray)) and isinstance(b, (bytes, bytearray)):
                 return a + b
             return SBytes.of(a) + SBytes.of(b)
+        if isinstance(op, ast.Add) and (type(a).__name__ == 'ABuf' or type(b).__name__ == 'ABuf'):
+            if type(a).__name__ == 'ABuf' and (isinstance(b, (SBytes, bytes, bytearray)) or type(b).__name__ == 'ABuf'):
+                return a.concat(self, b)
+            if type(b).__name__ == 'ABuf' and isinstance(a, (SBytes, bytes, bytearray)):
+                return b.concat(self, a, other_first=True)
+            raise PyRaise(make_exc('TypeError', "can't concat"))
         if isinstance(op, ast.Pow):
             if isinstance(a, Sym) or isinstance(b, Sym):
                 if not isinstance(a, Sym) and a == 2 and isinstance(b, Sym) and b.ty == 'int':
@@ -1663,13 +1669,52 @@ def built_instance(ex, ci, known=None, args=(), kwargs=None):
     from .abssets import HavocState
     known = dict(known or {})
     obj = ex.instantiate(ci, list(args), dict(kwargs or {}))
+    later = assigned_outside_constructor(ex.repo, ci)
     for a, v in list(obj.attrs.items()):
         if a in known:
             continue
-        if isinstance(v, (dict, list, set, bytearray)) or type(v).__name__ in ('SymMap', 'AbsSet'):
+        if isinstance(v, (dict, list, set, bytearray)) or type(v).__name__ in ('SymMap', 'AbsSet', 'SymSet'):
             obj.attrs[a] = HavocState(f'{ci.name}.{a}')
+        elif a in later:
+            # a scalar some method other than the constructor assigns: unknown value of the constructor's kind
+            if isinstance(v, bool):
+                obj.attrs[a] = Sym(z3.Bool(f'{ci.name}.{a}0'), 'bool')
+            elif isinstance(v, int):
+                obj.attrs[a] = mk_int(z3.Int(f'{ci.name}.{a}0'))
+            elif v is None or isinstance(v, (str, bytes, float)):
+                obj.attrs[a] = Opaque(f'{ci.name}.{a}')
     obj.attrs.update(known)
     return obj
+
+
+def assigned_outside_constructor(repo, ci):
+    """Names of the attributes `self.<name>` that a method other than __init__ of the class or one of its bases assigns
+    (read from the source on every run)."""
+    out, seen, todo = set(), set(), [ci]
+    while todo:
+        c = todo.pop()
+        if c is None or c.name in seen:
+            continue
+        seen.add(c.name)
+        for mname, m in c.methods.items():
+            if mname == '__init__':
+                continue
+            for n in ast.walk(m.node):
+                tg = []
+                if isinstance(n, ast.Assign):
+                    tg = n.targets
+                elif isinstance(n, (ast.AnnAssign, ast.AugAssign)):
+                    tg = [n.target]
+                for x in tg:
+                    for y in (x.elts if isinstance(x, (ast.Tuple, ast.List)) else [x]):
+                        if isinstance(y, ast.Attribute) and isinstance(y.value, ast.Name) and y.value.id == 'self':
+                            out.add(y.attr)
+        for b in c.bases:
+            try:
+                todo.append(repo.cls(c.module, b))
+            except Exception:  # noqa
+                pass
+    return out
 
 
 # ----------------------------------------------------------------------------
